@@ -57,6 +57,29 @@ def illegal_tail(rng, s, model):
             for tid, info in tk.items():
                 if not info["bodies"] and not info["par"]:
                     cands.append((t, "x", tid, 0, "nest a task over a running one"))
+    # a perfectly legal task operation, but by a thread that has just been paused (the models want an active thread)
+    if rng.chance(1, 6):
+        legalops = []
+        for t in range(n):
+            if tstate[t] != "Running":
+                continue
+            pr = (s.threads[t]["loom"], s.threads[t]["pid"])
+            tk = tasks.get(pr, {})
+            stk = stacks[t]
+            if stk:
+                (tid, bid) = stk[-1]
+                st_ = tk[tid]["bodies"][bid]["st"]
+                legalops.append((t, "e" if st_ == "R" else "r", tid, bid))
+            else:
+                for tid, info in tk.items():
+                    if not info["bodies"] and not info["par"]:
+                        legalops.append((t, "x", tid, 0))
+        if legalops:
+            (t, kind, tid, bid) = rng.choice(legalops)
+            s.events.append((t, clk, "OHp", b""))
+            payload = u32(tid) + u32(bid) if model == "nosv" else u32(tid)
+            s.events.append((t, clk + 2, M + "T" + kind, payload))
+            return "task operation by a paused thread"
     if not cands:
         return None
     special = [c for c in cands if "not on top" in c[4]]
